@@ -1379,3 +1379,24 @@ def memo_soundness(chk, rule: str, rels=None):
     sites = _memo_sites(t.body[0])
     fired = bool(sites) and _memo_key_collision(folder, next(iter(repo.modules.values())), _single_def(sites[0][1], "key"), ["index", "subindex"]) is not None
     chk.fixture(rule, "memo key `index << 8 + subindex` collides", fired)
+
+
+def done_before_last_exchange(chk, rule: str):
+    """WritableStream.write marks the stream done *before* the segment flagged last is exchanged: when the server refuses exactly that
+    segment (the place where a segmented write to a read-only / wrong-length / missing object is refused), close() -- which always
+    follows -- must not send another 'last' segment; the caller would get the toggle error of that stray frame instead of the
+    server's abort code.  (Clause of C01.R6, shared with C06.)"""
+    repo, folder = ctx(chk)
+    f = repo.func(CL, "WritableStream.write", f"{chk.prop}.{rule}")
+    ff = ff_for(chk, f, f"{chk.prop}.{rule}")
+    adds = [n for n in own_nodes(f.node) if isinstance(n, ast.AugAssign) and isinstance(n.target, ast.Name) and folder.try_fold(n.value, ff.scope, None) == 1 and isinstance(n.op, ast.BitOr)]
+    dn = [s_ for s_ in attr_stores(f.node, "_done") if folder.try_fold(s_.value, ff.scope, None) is True]
+    dnodes = [ff.cfg.node_of(s_) for s_ in dn]
+    for a in adds:
+        an = ff.cfg.node_of(a)
+        exch = [n for n in ff.cfg.reach_from(an) if n.kind == "stmt" and any(isinstance(c_, ast.Call) and isinstance(c_.func, ast.Attribute) and c_.func.attr in ("request_response", "send_request")
+                                                                             for c_ in ast.walk(n.ast))]
+        wit = must_pass(ff.cfg, lambda n: n in dnodes, from_node=an, to_nodes=exch) if exch else None
+        chk.check(wit is None, rule, f"{CL}:WritableStream.write | marked done before the last segment is exchanged", f.loc(a),
+                  f"the last segment goes out before `self._done = True`: if the server refuses it, close() sends a second 'last' segment and the caller sees that frame's toggle error "
+                  f"instead of the server's abort code ({path_text(wit) if wit else ''})")
